@@ -217,6 +217,14 @@ Proof.
     apply (words_split_acc s 0 CText [c] 1 Hp'). left. split; [reflexivity | split; [discriminate | intros d [<-|[]]; exact Kc]].
 Qed.
 
+(* within the quantifier of C14 (aliases without parentheses) the repaired normalisation is the one the property words:
+   lower-case, strip, split on white space, join with one space *)
+Theorem norm_alias_plain a : (forall c, In c a -> is_space O c = false -> is_paren c = false) ->
+  norm_alias O a = norm_spaces O (strip O (lower O a)).
+Proof.
+  intro H. unfold norm_alias, lwords, norm_spaces. rewrite (words_split a H), split_strip, split_lower. reflexivity.
+Qed.
+
 (* every character of a text that is not white space is in one of its words *)
 Lemma split_acc_covers : forall s acc c, In c acc \/ In c s -> is_space O c = false -> nospace O acc ->
   exists w, In w (split_ws_acc O acc s) /\ In c w.
